@@ -212,7 +212,7 @@ def build_ocaml():
     if rc != 0:
         return False, out
     logs = out
-    for prog in ("arena_check", "vec_check"):
+    for prog in ("arena_check", "vec_check", "string_check"):
         subprocess.run(["cp", os.path.join(OCAML_SRC, prog + ".ml"), OCAML_BUILD])
         rc, out = sh(["ocamlfind", "ocamlopt", "-O2", "-package", "zarith,str", "-linkpkg", "-w", "-a",
                       "model.mli", "model.ml", prog + ".ml", "-o", prog], cwd=OCAML_BUILD, timeout=600)
@@ -290,6 +290,43 @@ VEC_MISMATCH_PROPS = {
     ("vecmodel", "grid_try_reserve_exact"): ["C19"],
 }
 VEC_PROPS = ["C13", "C15", "C16", "C19"]
+
+STR_TIERS = {
+    "quick": (4, 300, 40),
+    "thorough": (16, 4000, 60),
+}
+STR_MISMATCH_PROPS = {
+    ("strmodel", "valid_utf8"): ["C14"],
+    ("strmodel", "panics"): ["C14"],
+    ("strmodel", "bytes"): ["C14"],
+    ("strmodel", "lossy"): ["C14"],
+    ("strmodel", "from_utf8"): ["C14"],
+}
+STR_PROPS = ["C14"]
+
+
+def run_str_shard(mode, seed, count, maxops, first, outdir, tag):
+    trace = os.path.join(outdir, "str_%s_%s.trace" % (mode, tag))
+    rep = os.path.join(outdir, "str_%s_%s.report" % (mode, tag))
+    drv = bin_path(mode, "string_driver")
+    status = "ok"
+    with open(trace, "w") as tf:
+        try:
+            p = subprocess.run([drv, "gen", str(seed), str(count), str(maxops), str(first)],
+                               stdout=tf, stderr=subprocess.PIPE, timeout=900)
+            if p.returncode != 0:
+                status = "exit%d" % p.returncode
+        except subprocess.TimeoutExpired:
+            status = "timeout"
+    with open(trace) as tf, open(rep, "w") as rf:
+        subprocess.run([os.path.join(OCAML_BUILD, "string_check")], stdin=tf, stdout=rf, timeout=900)
+    lines = open(rep).read().split("\n")
+    return {"mode": mode, "tag": tag, "trace": trace, "status": status, "lines": lines,
+            "seed": seed, "first": first, "count": count, "maxops": maxops}
+
+
+def str_run(tier, seed, extra_tag=""):
+    return engine_run("str", STR_TIERS, run_str_shard, "C14", tier, seed, extra_tag)
 
 
 def run_vec_shard(mode, seed, count, maxops, first, outdir, tag):
